@@ -230,7 +230,7 @@ CONC = {
                 quick_episodes=350, thorough_episodes=4000,
                 rule=SLICE_JOB_RULE, trusted_base=TB_CONC,
                 assumptions=['jobs rebuilt by parseToJob from stored entries have no handle; their status word starts from whatever the entry says']),
-    'C18': dict(module='Properties.C18', file='Properties/C18.v', slices=['pool'],
+    'C18': dict(module='Properties.C18', file='Properties/C18.v', slices=['pool', 'disp'],
                 families=['pool', 'lifecycle', 'lifeseq', 'burst', 'saturate'],
                 quick_episodes=300, thorough_episodes=4000,
                 rule='episodes = scenario programs run under the controlled scheduler on the instrumented library (see C01); per pool node the log is projected onto coq/SlicePool.v '
